@@ -424,6 +424,13 @@ fn resolve_instruction_match_inner(
                     arg_value,
                     param.typ)?;
 
+                // An out-of-range argument fails the match even if
+                // the rule's production never reads the parameter
+                if constrained_arg_value.should_propagate()
+                {
+                    return Ok(constrained_arg_value);
+                }
+
                 eval_ctx.set_local(
                     &param.name,
                     constrained_arg_value);
